@@ -598,9 +598,20 @@ def shrink(name, case):
                 yield {"b": case["b"], "off": case["off"], "queries": [q]}
 
 
+def _narrowed(c, r):
+    """the failing table restricted to the failing region, if that alone still fails"""
+    if r and "region" in r and "region2" not in r:
+        c2 = dict(c)
+        c2.update(regions=[r["region"]], stride=1, pairs=[])
+        r2 = run_check(_table, c2)
+        if r2:
+            return {"check": "table", "case": c2, "result": r2}
+    return {"check": "table", "case": c, "result": r}
+
+
 def escalate(name, case, rng):
     """a unit correspondence stopped checking: enumerate every region end to end on the same table, then on
-    every small two-chromosome table, then on uniform tables around the disagreeing bin size"""
+    uniform tables around the disagreeing bin size, then on every small two-chromosome table"""
     worker_init()
     cands = []
     if "bins" in case and max(b[2] for b in case["bins"]) < 2 ** 31 and len(case["bins"]) <= 64:
@@ -611,17 +622,16 @@ def escalate(name, case, rng):
         cands.append(table_case(bins, stride=1, kind="escalation", regions=regs))
     if name == "float_division":
         b = case["b"]
-        for s, e in case["queries"][:3]:
-            nb = min(400, max(2, (2 ** 31 - 1) // b))
-            bins = gen.uniform_bins([min(2 ** 31 - 1, nb * b - (1 if b > 1 else 0))], b)
-            cands.append(table_case(bins, stride=1, kind="escalation", regions=sampled_regions(rng, bins, 60)))
+        nb = min(40, max(2, (2 ** 31 - 1) // b))
+        bins = gen.uniform_bins([min(2 ** 31 - 1, nb * b - (1 if b > 1 else 0))], b)
+        cands.append(table_case(bins, stride=1, kind="escalation", regions=sampled_regions(rng, bins, 60)))
     for c in cands:
         r = run_check(_table, c)
         if r:
-            return {"check": "table", "case": c, "result": r}
+            return _narrowed(c, r)
     for bins in itertools.chain(CORPUS, all_segmentations(4, 2)):
         c = table_case(bins, stride=4, kind="escalation", npairs=2)
         r = run_check(_table, c)
         if r:
-            return {"check": "table", "case": c, "result": r}
+            return _narrowed(c, r)
     return None
